@@ -13,7 +13,7 @@ from vpkit import common, zoo
 
 ID = "C24"
 N = {"quick": 220, "thorough": 6000}
-BUDGET = {"quick": 240.0, "thorough": 1500.0}
+BUDGET = {"quick": 240.0, "thorough": 700.0}
 RULE = ("case = zoo input (recombining, polytomies, missing data, historical samples, mutations above "
         "changing roots and on isolated nodes, diploid individuals) x default and custom sample sets; "
         "distinct by topology hash; non-trivial = >=2 trees; every edge / mutation / block compared")
